@@ -12,7 +12,13 @@ Record obs := mkObs {
   b_hsdone : bool            (* ConnectionState().HandshakeComplete after the step *)
 }.
 
-Inductive case := ApiCase (p : plan) (h : list (call * obs)).
+Inductive case :=
+| ApiCase (p : plan) (h : list (call * obs))
+(* the dialing entry points (DialWithDialer with a Timeout / Deadline, Dialer.DialContext with a context):
+   the bound is the context of the handshake; honest = the server completes the handshake, otherwise it
+   accepts the connection and stays silent; err = what the call returned (XBlock: still blocked well
+   after the bound); works = the established connection still carried data after the bound had passed *)
+| DialCase (how : N) (honest : bool) (err : option eclass) (in_time works : bool).
 
 Definition eclass_eqb (a b : eclass) : bool :=
   match a, b with
@@ -68,8 +74,18 @@ Fixpoint disagree (st : state) (h : list (call * obs)) : bool :=
   | (c, b) :: t => let '(st', o) := step st c in negb (agree c st' o b) || disagree st' t
   end.
 
+(* the model's answer for a handshake under a context that ends while the peer is silent (no step
+   done), resp. for an undisturbed handshake with no cancellation *)
+Definition dial_plan : plan := mkPlan 7 0 true None.
+Definition dial_expected (honest : bool) : option eclass :=
+  snd (fst (handshake (init dial_plan) (if honest then None else Some 0%nat))).
+
 Definition mismatch (c : case) : bool :=
-  match c with ApiCase p h => disagree (init p) h end.
+  match c with
+  | ApiCase p h => disagree (init p) h
+  | DialCase _ honest err in_time works =>
+      negb (oerr_eqb err (dial_expected honest) && in_time && (negb honest || works))
+  end.
 
 (* ---------------- the property, on the implementation's own results ----------------
    Bookkeeping over the history that does not use the model's step function: what has arrived,
@@ -237,6 +253,9 @@ Fixpoint codes (p : plan) (q : spst) (h : list (call * obs)) : list N :=
 Definition spec_code (c : case) : N :=
   match c with
   | ApiCase p h => match codes p sp0 h with x :: _ => x | [] => 0%N end
+  | DialCase _ honest err in_time works =>
+      if honest then (if oerr_eqb err None && in_time && works then 0%N else 18%N)
+      else (if oerr_eqb err (Some XCtx) && in_time then 0%N else 13%N)
   end.
 
 Definition mismatches (cs : list (N * case)) : list N :=
